@@ -4,13 +4,14 @@
 (* missing) over the atom names of one atom table; TLC's BFS enumerates      *)
 (* every formula with at most MaxOps connectives.  Each complete formula is  *)
 (* emitted in two renderings (minimal brackets / fully bracketed).           *)
-EXTENDS WorldC03, Lang, Json, FiniteSets
+EXTENDS WorldC03, WorldRnd, Lang, Json, FiniteSets
 
 CONSTANTS MaxOps,      \* connectives (and/or/not) per formula
-          Tables       \* which atom tables to use (subset of 1..3)
+          Tables,      \* which atom tables to use (subset of 1..3)
+          WorldSel     \* 0 = the fixed world W3, s > 0 = the pseudo-random tree WorldRnd!RndWorld(s)
 
-VARIABLES tab, toks, open, ops
-vars == <<tab, toks, open, ops>>
+VARIABLES tab, toks, open, ops, ws
+vars == <<tab, toks, open, ops, ws>>
 
 (* atom tables: every operator kind occurs in some table; A/B have documented infix negations *)
 Atoms(t) ==
@@ -31,14 +32,14 @@ Atoms(t) ==
                   C  |-> A1("is_dir", "istrue", BoolL(TRUE, ""), "") ]
 Leaves == {"A", "Ai", "B", "Bi", "C"}
 
-Init == tab \in Tables /\ toks = <<>> /\ open = 1 /\ ops = 0
+Init == tab \in Tables /\ ws \in WorldSel /\ toks = <<>> /\ open = 1 /\ ops = 0
 
 AddTok ==
   /\ open > 0
   /\ \/ \E t \in Leaves : toks' = Append(toks, t) /\ open' = open - 1 /\ ops' = ops
      \/ ops < MaxOps /\ toks' = Append(toks, "not") /\ open' = open /\ ops' = ops + 1
      \/ ops < MaxOps /\ \E c \in {"and", "or"} : toks' = Append(toks, c) /\ open' = open + 1 /\ ops' = ops + 1
-  /\ UNCHANGED tab
+  /\ UNCHANGED <<tab, ws>>
 Next == AddTok
 Spec == Init /\ [][Next]_vars
 
@@ -59,12 +60,13 @@ Class == "t" \o ToString(tab)
          \o (IF Has("Ai") \/ Has("Bi") THEN "/infix" ELSE "")
          \o (IF Has("and") /\ Has("or") THEN "/mixed" ELSE "")
 
-Scn(style) == [prop |-> "C03", class |-> Class \o "/" \o style, world |-> "W3",
+WKey == IF ws = 0 THEN "W3" ELSE "R" \o ToString(ws)
+Scn(style) == [prop |-> "C03", class |-> (IF ws = 0 THEN "" ELSE "rnd/") \o Class \o "/" \o style, world |-> WKey,
                formula |-> [f |-> "prefix", toks |-> toks, atoms |-> Atoms(tab)],
                env |-> [tz |-> "UTC", cwd |-> 0],
                runs |-> << [tag |-> "q", ncols |-> 1,
                             argv |-> << "select path from '.' where " \o FormulaText(toks, Atoms(tab), style) \o " into list" >>] >>]
-EmitWorld == (toks = <<>>) => PrintT(<<"WORLD", ToJson([key |-> "W3", world |-> W3])>>)
+EmitWorld == (toks = <<>>) => PrintT(<<"WORLD", ToJson([key |-> WKey, world |-> IF ws = 0 THEN W3 ELSE RndWorld(ws)])>>)
 Emit == (open = 0) => /\ PrintT(<<"REPLAY", ToJson(Scn("min"))>>)
                        /\ PrintT(<<"REPLAY", ToJson(Scn("full"))>>)
 =============================================================================
